@@ -61,7 +61,7 @@ TECHNIQUE = "Lean 4 big-step semantics + sound & complete set-valued evaluator; 
 
 FUEL = 120
 TIMING_CORPUS = ("catch_all", "shared", "fork", "two-errors", "catch-two-errors", "seq-stops", "containers")
-CPU_BUDGET_QUICK, CPU_BUDGET_THOROUGH = 8.0, 330.0       # seconds of process CPU for the generated stream (not wall clock)
+CPU_BUDGET_QUICK, CPU_BUDGET_THOROUGH = 4.0, 330.0       # seconds of process CPU for the generated stream (not wall clock)
 
 
 def corpus():
@@ -173,6 +173,18 @@ def corpus():
         "partial-value": L.add.partial(L.inc(1)),
         "task-values": [L.inc, L.add.partial(1, b=2)],
         "type-error-add": L.inc(1) + "a",
+        # the VALUE of a lazy operator is reduced like any value: a container of task calls is evaluated recursively
+        "lazy-call-returns-list": identity(L.py_fan)(3),
+        "lazy-call-returns-dict": L.first([L.py_plan, 0])(2, None),
+        "lazy-call-returns-dict-failing": identity(L.py_plan)(2, "K"),
+        "lazy-call-returns-list-caught": catch(identity(L.py_plan)(1, "V"), ValueError, L.rec_val),
+        "lazy-method-returns-list": L.mkplan(3).steps(),
+        "lazy-method-returns-list-failing": L.mkplan(2, "L").steps(),
+        "lazy-method-caught": catch(L.mkplan(2, "V").steps(), ValueError, L.rec_val),
+        "lazy-getitem-returns-tuple": L.mkplan(2)[5],
+        "lazy-bound-method-value": identity(L.mkplan(2).steps)(),
+        "lazy-container-as-argument": L.total(identity(L.py_fan)(3)),
+        "object-value": [L.mkplan(1, "V"), L.mkplan(2).n],
         # one term shared by two consumers under the same parent job (one promise per parent and expression hash)
         "shared-seq": [L.add(L.inc(1), L.twice(2)), seq([L.inc(1), L.inc(1)])],
         "shared-cond": [L.add(L.inc(1), L.inc(3)), cond(L.inc(1), L.inc(1), 0)],
@@ -318,7 +330,7 @@ def run(ctx):
 def free_running(ctx, G, R, base):
     """a few programs per run on the real executors: thread pool, process pool (fork), async tasks"""
     plans = [("thread", ("thread", None), False), ("process", ("process", None), False), ("async", (None,), True)]
-    per = ctx.n(2, 30)
+    per = ctx.n(1, 30)
     progs = []
     for mode, modes, allow_async in plans:
         for i in range(per if (mode != "process" or ctx.tier != "quick") else 1):
